@@ -140,6 +140,7 @@ PROPS = {
                 "every future must become ready exactly once with the value the life-cycle model predicts (first set, else fulfil value, else X{} at destruction); any std::future_error is a violation. Exploration only.",
         "assumptions": ["each key is requested at most once (as the property states)", "consumers poll futures (wait_for(0)) instead of blocking the single OS thread"],
         "stages": [{"family": "containers", "flavour": "plain", "target": "C18s", "cases": (300000, 4000000), "maxsec": (30, 300)},
+                   {"family": "containers", "flavour": "plain", "target": "C18f", "cases": (150000, 2000000), "maxsec": (20, 200)},
                    {"family": "containers", "flavour": "plain", "target": "C18", "cases": (300000, 4000000), "maxsec": (40, 400)},
                    {"family": "rt", "flavour": "tsan", "target": "RTdobj", "cases": (6000, 150000), "maxsec": (20, 400), "stochastic": True, "min_nontrivial_frac": 0.5}],
     },
@@ -163,7 +164,8 @@ PROPS = {
                 "no skipped stable element, and the final contents against the model in mutex order. Exploration only.",
         "assumptions": ["unique element values", "4 fibers x 4/6 operations (concurrent), up to 12/24 commands (sequential)"],
         "stages": [{"family": "rcu", "flavour": "plain", "target": "C12s", "cases": (300000, 3000000), "maxsec": (20, 200)},
-                   {"family": "rcu", "flavour": "plain", "target": "C12", "cases": (500000, 6000000), "maxsec": (40, 400)}],
+                   {"family": "rcu", "flavour": "plain", "target": "C12", "cases": (500000, 6000000), "maxsec": (40, 400)},
+                   {"family": "rcu", "flavour": "plain", "target": "C12f", "cases": (200000, 3000000), "maxsec": (25, 300)}],
     },
     "C13": {
         "level": "exploration",
@@ -215,7 +217,8 @@ PROPS = {
         "stages": [{"family": "locks", "flavour": "plain", "target": "C15g", "cases": (300000, 4000000), "maxsec": (40, 400)},
                    {"family": "deferred", "flavour": "plain", "target": "C15d", "cases": (300000, 4000000), "maxsec": (30, 300)},
                    {"family": "atomicreg", "flavour": "plain", "target": "C15as", "cases": (400000, 4000000), "maxsec": (20, 200)},
-                   {"family": "atomicreg", "flavour": "plain", "target": "C15a", "cases": (400000, 6000000), "maxsec": (30, 300)}],
+                   {"family": "atomicreg", "flavour": "plain", "target": "C15a", "cases": (400000, 6000000), "maxsec": (30, 300)},
+                   {"family": "rt", "flavour": "tsan", "target": "RTatomic", "cases": (5000, 120000), "maxsec": (20, 400), "stochastic": True, "min_nontrivial_frac": 0.5}],
     },
     "C03": {
         "level": "exploration",
@@ -273,6 +276,7 @@ PROPS["C07"] = {
         {"family": "deferred", "flavour": "plain", "target": "C06", "cases": (200000, 3000000), "maxsec": (25, 300), "args": _W},
         {"family": "rcu", "flavour": "plain", "target": "C12", "cases": (200000, 3000000), "maxsec": (25, 300), "args": _W},
         {"family": "locks", "flavour": "plain", "target": "C02", "cases": (200000, 3000000), "maxsec": (25, 300), "args": _W},
+        {"family": "lrcow", "flavour": "plain", "target": "C20lr", "cases": (200000, 3000000), "maxsec": (25, 300), "args": _W},
         {"family": "rt", "flavour": "tsan", "target": "RT", "cases": (12000, 400000), "maxsec": (25, 600), "stochastic": True, "min_nontrivial_frac": 0.5},
     ],
 }
